@@ -320,6 +320,14 @@ impl<P: Atomic> Clone for GenericLocalCounterVec<P> {
     }
 }
 
+#[cfg(prometheus_verif)]
+impl<P: Atomic> GenericCounter<P> {
+    /// Address under which the verification shim reports this counter's value.
+    pub fn verif_addr(&self) -> usize {
+        &self.v.val as *const P as usize
+    }
+}
+
 #[cfg(test)]
 mod tests {
     use std::collections::HashMap;
